@@ -399,3 +399,71 @@ def check_added_transitions_push_pop(ctx, rep, f, rule='R-PDAFORM.form'):
         else:
             rep.violates(rule, f, c, 'the added transition pops {!r} and pushes {!r}: it is neither a push nor a pop, although this form is applied after the push/pop conversion in pda_to_cfg'.format(pop, push))
     return len(adds)
+
+
+def check_find_transition(ctx, rep, f, rule='R-PDAFORM.witness'):
+    """the predecessor returned for a trace step must reach the WHOLE target configuration: state, and the complete stack
+    that results from the move (comparing only the height or the top lets a predecessor with a different stack below the
+    top through, and the trace then contains a step that is no move of the automaton)"""
+    fx = ctx.facts(f)
+    tparam = [p for p in f.params if p == 'target']
+    rets = [r for r in walk_no_nested(f.node) if isinstance(r, ast.Return) and r.value is not None and not (isinstance(r.value, ast.Constant) and r.value.value is None)]
+    if not tparam or not rets:
+        rep.undecided(rule, f, 'def ' + f.name, 'no target parameter / no witness return')
+        return 0
+    n = 0
+    for r in rets:
+        nid = fx.cfg.n_of(r)
+        atoms = fx.guard_atoms(nid)
+        whole = False
+        partial = []
+        state_ok = False
+        for a in atoms:
+            if a[0] != 'eq' or a[3] is not True:
+                continue
+            sides = [a[1], a[2]]
+            for x, y in (sides, sides[::-1]):
+                xs = x.replace(' ', '')
+                if xs == 'target.q':
+                    state_ok = True
+                if xs in ('target.stack', 'target'):
+                    try:
+                        other = ast.parse(y, mode='eval').body
+                    except SyntaxError:
+                        continue
+                    other = resolve_alias(f, other) if isinstance(other, ast.Name) else other
+                    if any(isinstance(c, ast.Call) and isinstance(c.func, ast.Name) and c.func.id in ('pda_pop_push', 'PDAState') for c in ast.walk(other)):
+                        whole = True
+                elif 'target.stack' in xs:
+                    partial.append(a)
+        n += 1
+        if whole and (state_ok or any('PDAState' in a[1] + a[2] for a in atoms)):
+            rep.holds(rule, f, r, 'the witness is returned only when the state and the complete resulting stack equal the target configuration')
+        elif partial and not whole:
+            rep.violates(rule, f, r, 'the predecessor is accepted after comparing only a part of the target stack ({}): two configurations of equal height and top but different contents below are confused, and the returned run contains a step that is no transition of the PDA'.format(
+                '; '.join('{} == {}'.format(a[1], a[2]) for a in partial[:2])))
+        else:
+            rep.undecided(rule, f, r, 'comparison with the target configuration not recognised')
+    return n
+
+
+def check_push_pop_predicate(ctx, rep, f, rule='R-PDAFORM.form'):
+    """pda_is_push_pop is a UNIVERSAL statement over single transitions (key, target): it consults the per-transition
+    predicate for every target of every key.  An existential aggregate over the targets of a key (any(...)) accepts a key
+    that mixes a push with a move that neither pushes nor pops."""
+    calls = [c for c in ast.walk(f.node) if isinstance(c, ast.Call) and isinstance(c.func, ast.Attribute) and c.func.attr == 'is_push_pop_transition']
+    anys = [c for c in ast.walk(f.node) if isinstance(c, ast.Call) and isinstance(c.func, ast.Name) and c.func.id == 'any']
+    if anys:
+        rep.violates(rule, f, anys[0], 'the push/pop test aggregates the targets of one key with any(...): a key whose targets mix a push with a move that neither pushes nor pops is accepted, pda_to_cfg then skips the normalisation and silently drops such moves')
+        return 1
+    if calls:
+        c = calls[0]
+        # every loop variable of both levels reaches the call
+        names = {x.id for a in c.args for x in ast.walk(a) if isinstance(x, ast.Name)}
+        if len(names) >= 5:
+            rep.holds(rule, f, c, 'every single transition (key and target) is judged by is_push_pop_transition')
+        else:
+            rep.undecided(rule, f, c, 'is_push_pop_transition is not applied to all five components')
+        return 1
+    rep.undecided(rule, f, 'def ' + f.name, 'per-transition predicate not found')
+    return 1
